@@ -11,5 +11,6 @@ CONSTANTS
   Warm = TRUE
   Per = 8
   Rebuild = "type-checksum"
+  SufCheck = "exists-first"
 INVARIANTS BoundOK
 CHECK_DEADLOCK FALSE
